@@ -1,16 +1,22 @@
 import AiocoapModel.Basic.Bytes
 import AiocoapModel.Oscore.Persist
+import AiocoapModel.Oscore.PersistAead
 /-! Line protocol for the persistence model (C13).
 
 `C13 <start> <limit> <size> <disk> <event>*`
   disk    initial `sequence.json`: `-` (absent) | `<next>:u` | `<next>:n` | `<next>:<index>:<bitfield>`
   event   `L<echo>` load · `P` protect · `R<seq>:<0|1>:<echo|->` request arrives ·
-          `S` clean shutdown · `K` kill · `M` print the memory;
-          `P`, `R…`, `S` take a suffix `!<j>`: the process dies inside the operation after `j`
+          `S` clean shutdown · `K` kill · `M` print the memory ·
+          `A<n>` protect a response / notification / Echo challenge with the newest request identifiers of
+          the request with partial IV `n` (an own request if there are none);
+          `P`, `R…`, `S`, `A…` take a suffix `!<j>`: the process dies inside the operation after `j`
           file-system effects of its `_store`
 → one token per event: `i<n>` issued · `x` exhausted · `a` assertion · `As`/`Ae` accepted (by
   strike / by Echo recovery) · `R` `E` `P` refused · `l` loaded · `k` locked · `s` shut down ·
-  `z` killed · `d` died · `-` no process; followed by `@<dir>` when the directory changed;
+  `z` killed · `d` died · `-` no process · `r<n>` protected with the re-used nonce of request `n`;
+  followed by `~o<n>` / `~p<n>` for every nonce handed to the AEAD under the sender key in this event
+  (built from the own number `n` / from the partial IV `n` of the request answered), then by `@<dir>`
+  when the directory changed;
   `M` → `m:<ssn>:<persisted>:<chunk>:<0|1>:<window>` or `m:-`.
   dir = `<sequence.json>;<temp>,<temp>…` (newest first, `e` = empty temp file)
 -/
@@ -82,30 +88,39 @@ def parseArrival (s : String) : Option Arrival :=
   | _ => none
 
 /-- `none`: the memory query `M`; `some ev` an event of the model -/
-def parseEv (tok : String) : Option (Option Ev) := do
+def parseEv (tok : String) : Option (Option GEv) := do
   let (x, crash) ← splitCrash tok
   match x.toList with
   | ['M'] => if crash.isNone then some none else none
-  | ['K'] => if crash.isNone then some (some .kill) else none
-  | ['P'] => some (some (.protect crash))
-  | ['S'] => some (some (.cleanShutdown crash))
+  | ['K'] => if crash.isNone then some (some (.base .kill)) else none
+  | ['P'] => some (some (.base (.protect crash)))
+  | ['S'] => some (some (.base (.cleanShutdown crash)))
   | 'L' :: rest =>
-    if crash.isSome then none else (String.ofList rest).toNat?.map fun e => some (.load e)
-  | 'R' :: rest => (parseArrival (String.ofList rest)).map fun a => some (.recv a crash)
+    if crash.isSome then none else (String.ofList rest).toNat?.map fun e => some (.base (.load e))
+  | 'R' :: rest => (parseArrival (String.ofList rest)).map fun a => some (.base (.recv a crash))
+  | 'A' :: rest => (String.ofList rest).toNat?.map fun n => some (.respond n crash)
   | _ => none
 
-def runTokens (cfg : Cfg) (s : State) : List String → Option (List String)
+def showGOut : GOut → String
+  | .base o => showOut o
+  | .reused n => s!"r{n}"
+
+def showNonce : Nonce → String
+  | .own n => s!"~o{n}"
+  | .peer n => s!"~p{n}"
+
+def runTokens (cfg : Cfg) (g : G) : List String → Option (List String)
   | [] => some []
   | tok :: toks => do
     match ← parseEv tok with
     | none =>
-      let rest ← runTokens cfg s toks
-      pure (showMem s.mem :: rest)
+      let rest ← runTokens cfg g toks
+      pure (showMem g.s.mem :: rest)
     | some ev =>
-      let r := step cfg s ev
+      let r := gstep cfg g ev
       let rest ← runTokens cfg r.1 toks
-      let o := showOut r.2
-      pure ((if r.1.dir = s.dir then o else o ++ "@" ++ showDir r.1.dir) :: rest)
+      let o := showGOut r.2.1 ++ String.join (r.2.2.map showNonce)
+      pure ((if r.1.s.dir = g.s.dir then o else o ++ "@" ++ showDir r.1.s.dir) :: rest)
 
 end C13
 
@@ -116,7 +131,7 @@ def handleC13 (args : List String) : String :=
     | some start, some limit, some size, some seq =>
       -- a window of size 0 trips an assertion in strike_out (as for C12)
       if size = 0 then "out-of-model" else
-      match C13.runTokens { start, limit, size } { dir := { seq, temps := [] }, mem := none } evs with
+      match C13.runTokens { start, limit, size } (G.init { seq, temps := [] }) evs with
       | some out => " ".intercalate out
       | none => "bad-op"
     | _, _, _, _ => "bad-op"
